@@ -54,7 +54,12 @@ def gen_cases(ctx):
 def tol(d, row, l1, l2, l3):
     if (l1, l2, l3) in ((1, 0, 0), (0, 1, 0), (0, 0, 1)):
         return Fraction(0)          # corners are interpolated exactly
-    return 6 * (d + 2) * U * oq.tri_bernstein_abs(row, d, l1, l2, l3)
+    # PROVED allowance (theorem C05_rounding_error_bound): ((1+u)^(4d+4) - 1) <= (4d+5) u, with |lambda1| replaced by
+    # |1 - s| + |t| for Cartesian input (lambda1 = fl(fl(1 - s) - t) cancels); valid for barycentric input too ((2d+4) roundings)
+    l1m = abs(l1)
+    if l1 + l2 + l3 == 1:
+        l1m = max(l1m, abs(1 - l2) + abs(l3))
+    return (4 * d + 5) * U * oq.tri_bernstein_abs(row, d, l1m, l2, l3)
 
 
 def coq_triples(ps):
@@ -202,8 +207,8 @@ def run(ctx):
                 ("hazmat.tri_compute_edge_nodes", lambda c: [enc_arr(c["rows"]), c["d"]], edges_out)],
                coq_edges, HEADER, "chk_tri_edges", nontrivial=nontriv)
     return finish(ctx, "theorems about the Gallina model of triangle_helpers.evaluate_barycentric / compute_edge_nodes; "
-                  "the compiled evaluator is tied by correspondence (degrees up to 40); rounding allowance 6(d+2)u*sum|b||v| "
-                  "is a-priori and validated, not proved",
+                  "the compiled evaluator is tied by correspondence (degrees up to 40); rounding allowance = the PROVED bound ((1+u)^(4d+4)-1) sum|b||v| of the standard-model theorem "
+                  "(for the Fortran text the proved allowance is validated on the stream, not proved)",
                   search=search,
-                  unproved=["floating-point rounding bound (validated, not proved)",
+                  unproved=["that binary64 satisfies the standard model is an assumption of the rounding theorem; overflow / underflow / NaN outside it",
                             "the literal index walk of the Python/Fortran loops is modelled through split_rows (tied by correspondence)"])
